@@ -32,7 +32,8 @@ From Coq Require Import ZArith List Bool String.
 From MxlBase Require Import ListX.
 From Core Require Import Sort GenSortFacts Model Cache Query.
 From MxlGen Require Import SymRepr GenMxlGenFacts ExpectedFacts MxlGen MxlGenSpec MxlGenSem MxlGenProofs
-                           Corr CorrProofs ParamNames MxlGenWitness NamingWitness.
+                           Corr CorrProofs ParamNames MxlGenWitness NamingWitness
+                           Imports CallDefaults ImportsProofs CallDefaultsProofs.
 Import ListNotations.
 Local Open Scope string_scope.
 Local Open Scope N_scope.
@@ -399,3 +400,122 @@ Example C11_parameter_names_nonvacuous :
   /\ map nstr w_args = ["n0011"; "n0011"; "n0011_1"]
   /\ parameter_names PnAllArgs (map nstr w_args) = Some ["n0011"; "n0011_2"; "n0011_1"].
 Proof. exact (conj w_args_nstr_inj (conj eq_refl (conj eq_refl (proj1 parameter_names_witness)))). Qed.
+
+(** ------------------------------------------------------------------------------------------------
+    The text AROUND the definitions and the binding of nested calls (second deepening; seeded changes
+    C11-5 and C11-6).  Two more REGENERATED facts:
+
+      gen_import_scan    which sections of the emitted text the import loop of
+                         [generate_mxlpy_code_from_symbolic_repr] searches for which module
+                         (Imports.v; shipped: the whole text for each of math, scipy.special,
+                         sympy.physics.units)
+      gen_call_defaults  how [fn_to_sympy] binds the arguments of a translated call to the callee's
+                         parameters (CallDefaults.v; shipped: strict zip, a call relying on a default
+                         value is refused, so generation raises)                                     *)
+Theorem C11_text_facts_pinned :
+  gen_import_scan = Some scan_whole_text /\ gen_call_defaults = DfRefuse.
+Proof. vm_compute. split; reflexivity. Qed.
+Print Assumptions C11_text_facts_pinned.
+
+(** FULL (imports): for EVERY emitted text -- any numbers (finite, +inf, -inf, NaN) with or without
+    units in the variable / parameter lines, any numeric or computed coefficients, any modules mentioned
+    by the function definitions -- , EVERY list of imports supplied by the caller and EVERY scan table
+    that searches the whole text for each module (the shipped one does): every module a section of the
+    file mentions is imported, so neither [create_model()] nor a later call of an emitted function raises
+    NameError for a module. *)
+Theorem C11_imports_cover_references :
+  forall (tbl : scan_table) (user : list pymod) (e : emitted),
+    covers tbl = true ->
+    (forall s m, In m (refs_of e s) -> In m (file_imports tbl user e))
+    /\ run_imports (file_imports tbl user e) e = ImOk.
+Proof. exact (fun tbl user e H => conj (fun s m => imports_cover tbl user e s m H) (imports_run_ok tbl user e H)). Qed.
+Print Assumptions C11_imports_cover_references.
+
+(** ... and, for ANY table, an import line is only added for a module the caller did not import and some
+    section mentions *)
+Theorem C11_imports_only_what_is_mentioned :
+  forall (tbl : scan_table) (user : list pymod) (e : emitted) (m : pymod),
+    In m (added_imports tbl user e) -> ~ In m user /\ exists s, In m (refs_of e s).
+Proof. exact imports_needed. Qed.
+Print Assumptions C11_imports_only_what_is_mentioned.
+
+(** seeded change C11-5 (math / scipy.special looked for in the function definitions only, the units in
+    the declarations only): a parameter equal to +inf in a model whose functions mention no module --
+    no import line, [create_model()] raises NameError; the shipped table imports math *)
+Theorem C11_split_scan_refuted :
+  file_imports scan_split [] e_cap_inf = []
+  /\ run_imports (file_imports scan_split [] e_cap_inf) e_cap_inf = ImNameErrorAtBuild
+  /\ file_imports scan_whole_text [] e_cap_inf = [PMath]
+  /\ run_imports (file_imports scan_whole_text [] e_cap_inf) e_cap_inf = ImOk.
+Proof. exact split_refuted. Qed.
+Print Assumptions C11_split_scan_refuted.
+
+(** what is left of the statement under the split search: no number outside the functions is +inf or NaN
+    and the function definitions mention no unit (the witness above is outside this guard) *)
+Theorem C11_split_scan_partial :
+  forall (user : list pymod) (e : emitted) (s : section) (m : pymod),
+    forallb plain_decl (e_vars e) = true -> forallb plain_decl (e_pars e) = true ->
+    forallb (forallb plain_coef) (e_rxns e) = true ->
+    ~ In PSympyUnits (e_fn_refs e) ->
+    In m (refs_of e s) -> In m (file_imports scan_split user e).
+Proof. exact split_partial. Qed.
+Print Assumptions C11_split_scan_partial.
+
+(** FULL (binding of a translated call, shipped tree): for EVERY callee (parameters [params], the last
+    [length defaults] of them defaulted) and EVERY argument list, if the strict zip accepts the call the
+    parameters are bound exactly as CPython binds them; and a call CPython accepts but the translator
+    refuses (=> the slot is untranslatable => generation raises, C11_untranslatable_raises) is exactly
+    a call that relies on default values. *)
+Theorem C11_call_binding_refuses_or_binds_like_python :
+  forall (P V : Type) (params : list P) (defaults args : list V),
+    (List.length defaults <= List.length params)%nat ->
+    (forall b, bind_args DfRefuse params defaults args = Some b -> py_bind params defaults args = Some b)
+    /\ (forall b, bind_args DfRefuse params defaults args = None -> py_bind params defaults args = Some b ->
+                  (List.length args < List.length params)%nat
+                  /\ (List.length params - List.length defaults <= List.length args)%nat).
+Proof.
+  exact (fun P V params defaults args H =>
+           conj (fun b => refuse_sound params defaults args b H)
+                (fun b => refuse_only_defaults params defaults args b)).
+Qed.
+Print Assumptions C11_call_binding_refuses_or_binds_like_python.
+
+(** a translator that supports defaults by giving the missing parameters the LAST defaults is CPython's
+    call, for every callee and argument list (what seeded change C11-6 should have done) *)
+Theorem C11_call_defaults_last_is_python :
+  forall (P V : Type) (params : list P) (defaults args : list V),
+    (List.length defaults <= List.length params)%nat ->
+    bind_args DfLast params defaults args = py_bind params defaults args.
+Proof. exact (fun P V => @last_is_python P V). Qed.
+Print Assumptions C11_call_defaults_last_is_python.
+
+(** seeded change C11-6 ([zip(missing, fn_def.args.defaults)]): hill(s, vmax, km=1, n=2) called with three
+    arguments binds n to 1, the default of km; CPython and DfLast bind 2, the shipped tree refuses *)
+Theorem C11_call_defaults_front_refuted :
+  py_bind hill_params hill_defaults hill_args = Some [("s", 10%Z); ("vmax", 20%Z); ("km", 30%Z); ("n", 2%Z)]
+  /\ bind_args DfFront hill_params hill_defaults hill_args = Some [("s", 10%Z); ("vmax", 20%Z); ("km", 30%Z); ("n", 1%Z)]
+  /\ bind_args DfLast hill_params hill_defaults hill_args = Some [("s", 10%Z); ("vmax", 20%Z); ("km", 30%Z); ("n", 2%Z)]
+  /\ bind_args DfRefuse hill_params hill_defaults hill_args = None.
+Proof. exact front_refuted. Qed.
+Print Assumptions C11_call_defaults_front_refuted.
+
+(** what is left under the front binding: every argument passed, or every default used (in particular any
+    callee with at most one default) -- the witness passes one of two defaults *)
+Theorem C11_call_defaults_front_partial :
+  forall (P V : Type) (params : list P) (defaults args : list V),
+    (List.length defaults <= List.length params)%nat ->
+    (List.length args = List.length params
+     \/ (List.length args + List.length defaults)%nat = List.length params
+     \/ ((List.length defaults <= 1)%nat /\ exists b, py_bind params defaults args = Some b)) ->
+    bind_args DfFront params defaults args = py_bind params defaults args.
+Proof. exact (fun P V => @front_partial_all P V). Qed.
+Print Assumptions C11_call_defaults_front_partial.
+
+(** non-vacuity: the shipped table meets [covers]; a text mentioning math in a declaration only, units in a
+    declaration and scipy.special in a function, with the caller importing scipy already *)
+Example C11_imports_nonvacuous :
+  covers scan_whole_text = true /\ covers scan_split = false
+  /\ file_imports scan_whole_text [PScipySpecial]
+       (mkEmitted [PScipySpecial] [DNum NNan true] [DInit; DNum NNegInf false] 2 [[KRef; KNum NPosInf]])
+     = [PScipySpecial; PMath; PSympyUnits].
+Proof. repeat split; vm_compute; reflexivity. Qed.
